@@ -463,6 +463,10 @@ func (s *session) doTargetTooHigh(reject targetTooHigh) (nextState resendState, 
 
 func (s *session) sendResendRequest(beginSeq, endSeq int) (nextState resendState, err error) {
 	nextState.resendRangeEnd = endSeq
+	// The stash must exist from the start: resend states are passed around by value, so a map
+	// created later for one copy (e.g. when the gap was detected on the Logon, which is not
+	// stashed itself) would be lost together with the messages put into it.
+	nextState.messageStash = make(map[int]*Message)
 
 	resend := NewMessage()
 	resend.Header.SetBytes(tagMsgType, msgTypeResendRequest)
